@@ -135,8 +135,8 @@ func (x *Exec) attributeListingDiff(c *Client, lib, mod string, st *Step) ([]str
 	libP, libC := splitListing(lib)
 	modP, modC := splitListing(mod)
 	if extra := diff(libP, modP); len(extra) > 0 {
-		// a permission the model does not hold
-		props := []string{"C07"}
+		// a permission the model does not hold: it would authorise relaying in both directions
+		props := []string{"C07", "C01", "C02"}
 		if st != nil && (st.Op == "CreatePermission" || st.Op == "ChannelBind") {
 			for _, p := range st.P {
 				pa := peerAddrOf(p)
@@ -157,7 +157,7 @@ func (x *Exec) attributeListingDiff(c *Client, lib, mod string, st *Step) ([]str
 		return []string{"C07", "C14"}, "permission-lost-early"
 	}
 	if extra := diff(libC, modC); len(extra) > 0 {
-		props := []string{"C08", "C07"}
+		props := []string{"C08", "C07", "C01", "C02"}
 		if st != nil && st.Op == "ChannelBind" && len(st.P) > 0 {
 			pa := peerAddrOf(st.P[0])
 			if x.w.cfg.denied(c.Idx, pa.IP) || familyOfIP(pa.IP) != a.Family {
